@@ -38,7 +38,7 @@ ANCHORS = ['ue2bitstore', 'se2bitstore', 'uie2bitstore', 'sie2bitstore',
            'Bits._setue', 'Bits._setse', 'Bits._setuie', 'Bits._setsie',
            'DtypeDefinition.__init__.<locals>.length_checked_get_fn',
            'DtypeDefinition.__init__.<locals>.read_fn']
-REQUIRED_OPS = ['create-keyword', 'create-property', 'create-token', 'create-build', 'create-pack-positional',
+REQUIRED_OPS = ['reencode-after-mutation', 'create-keyword', 'create-property', 'create-token', 'create-build', 'create-pack-positional',
                 'create-pack-eqvalue', 'create-pack-keyword', 'negative', 'property', 'parse', 'unpack', 'read',
                 'peek', 'readlist', 'peeklist', 'property-truncated', 'read-truncated', 'peek-truncated',
                 'readlist-truncated', 'unpack-truncated', 'parse-truncated', 'property-extra', 'parse-extra',
@@ -522,7 +522,51 @@ def judge_seq(ctx, c):
 JUDGES = {'int': judge_int, 'dec': judge_dec, 'seq': judge_seq, 'table': judge_table}
 
 
+def judge_reencode(ctx, c):
+    """The codeword of a value must not depend on what was done to an object that was built from the same value earlier
+    (an encoder that caches and hands out its result would be poisoned by an in-place change)."""
+    import bitstring
+    code, v = c['code'], c['v']
+    exp = K.GOLOMB_ENC[code](v)
+    cls = util.CLASSES[c['mcls']]
+    with util.options(lsb0=False):
+        if c['route'] == 'keyword':
+            a = cls(**{code: v})
+        else:
+            a = cls()
+            setattr(a, code, v)
+        first = a.bin
+        for m in c['mutations']:
+            if m == 'append':
+                a.append('0b1')
+            elif m == 'invert' and len(a):
+                a.invert()
+            elif m == 'prepend':
+                a.prepend('0b0')
+            elif m == 'del' and len(a):
+                del a[0]
+            elif m == 'setitem' and len(a):
+                a[-1] = not a[-1]
+        ctx.op('reencode-after-mutation')
+        again = {}
+        for cname in util.CLASS_NAMES:
+            again[cname + '(kw)'] = util.CLASSES[cname](**{code: v}).bin
+        again['token'] = bitstring.Bits(f'{code}={v}').bin
+        again['pack'] = bitstring.pack(code, v).bin
+        t = bitstring.BitArray()
+        setattr(t, code, v)
+        again['setter'] = t.bin
+        bad = {k: b for k, b in again.items() if b != exp}
+        if first != exp or bad:
+            ctx.mismatch(f'C10|reencode-after-mutation|{code}:{c["route"]}|codeword-depends-on-history', c,
+                         f'{code}={v}: expected {exp}, first {first}, after mutating that object: {bad}')
+        else:
+            ctx.ok(('reencode', code, c['route'], c['mcls']), True)
+
+
 def judge(ctx, c):
+    if c.get('k') == 'reencode':
+        return judge_reencode(ctx, c)
     with util.options(lsb0=False, bytealigned=False):
         JUDGES[c['k']](ctx, c)
 
@@ -680,6 +724,16 @@ def run(ctx):
         ctx.run_case(judge, c)
         if i % 499 == 0:
             ctx.sample(short(c))
+
+    # 3b. re-encoding a value after an object built from the same value was changed in place
+    for i in range(ctx.scale(1200, 40000)):
+        code = rng.choice(CODES)
+        v = rng.choice([0, 1, 2, 3, 5, 10, 100, 255, 256, 4095, rng.randint(0, 70000)])
+        if code in ('se', 'sie') and rng.random() < 0.5:
+            v = -v
+        c = {'k': 'reencode', 'code': code, 'v': v, 'mcls': rng.choice(util.MUTABLE), 'route': rng.choice(['keyword', 'setter']),
+             'mutations': [rng.choice(['append', 'invert', 'prepend', 'del', 'setitem']) for _ in range(rng.randint(1, 3))]}
+        ctx.run_case(judge, c)
 
     # 4. mixed sequences
     for i in range(ctx.scale(2000, 120000)):
